@@ -196,7 +196,7 @@ def sendConnless (env : Env) (c : Conn) (data : Bytes) : Except Fail (Conn × Se
   match c.state with
   | .online own their _ =>
     let c1 := { c with send := Timeout.after env.now sendUs }
-    if data.length > maxPayload then .ok (c1, .tooLongData, {})
+    if data.length > P7.connlessMax then .ok (c1, .tooLongData, {})
     else
       match emit [.connless their own data] with
       | .error e => .error e
@@ -298,5 +298,78 @@ def feed (env : Env) (c : Conn) (read : Option Packet) : Res :=
         | .error e => .error e
         | .ok o1 => feedBody env { c with state := .online own their o1 } p
       | _ => feedBody env c p
+
+/-! ## Operation sequences (the quantifier of C01–C04) -/
+
+inductive Op where
+  | connect
+  | disconnect (reason : Bytes)
+  | flush
+  | send (data : Bytes) (vital : Bool)
+  | sendConnless (data : Bytes)
+  | tick
+  | feed (read : Option Packet)
+
+def step (env : Env) (c : Conn) : Op → Res
+  | .connect => connect env c
+  | .disconnect r => disconnect env c r
+  | .flush => flush env c
+  | .send d v =>
+    match send env c d v with
+    | .error e => .error e
+    | .ok (c1, _, out) => .ok (c1, out)
+  | .sendConnless d =>
+    match sendConnless env c d with
+    | .error e => .error e
+    | .ok (c1, _, out) => .ok (c1, out)
+  | .tick => tick env c
+  | .feed rd => feed env c rd
+
+def run : Conn → List (Env × Op) → Except Fail (Conn × List Out)
+  | c, [] => .ok (c, [])
+  | c, (env, op) :: rest =>
+    match step env c op with
+    | .error e => .error e
+    | .ok (c1, out) =>
+      match run c1 rest with
+      | .error e => .error e
+      | .ok (c2, outs) => .ok (c2, out :: outs)
+
+/-- what `Packet::read` guarantees about its result: 10-bit ack and sequence numbers -/
+def Packet.wf : Packet → Bool
+  | .connless _ _ _ => true
+  | .control ack _ _ => decide (ack < seqMod)
+  | .chunks ack _ _ _ cs => decide (ack < seqMod) && chunksSeqOk cs
+
+def State.isOnline : State → Bool
+  | .online _ _ _ => true
+  | _ => false
+
+/-- the API's preconditions (see `Conn6.permitted`) -/
+def permitted (env : Env) (c : Conn) : Op → Bool
+  | .connect => c.state == .unconnected && (tokenRandom env.draws).isSome
+  | .disconnect r => c.state != .disconnected && r.all (· != 0) && decide (r.length ≤ P7.CTRLMSG_CLOSE_REASON_LENGTH)
+  | .flush => c.state.isOnline
+  | .send _ _ => c.state.isOnline
+  | .sendConnless _ => c.state.isOnline
+  | .tick => true
+  | .feed rd => rd.all Packet.wf && (tokenRandom env.draws).isSome
+
+def runPermitted : Conn → List (Env × Op) → Bool
+  | _, [] => true
+  | c, (env, op) :: rest =>
+    permitted env c op &&
+      match step env c op with
+      | .error _ => true
+      | .ok (c1, _) => runPermitted c1 rest
+
+/-- what C04 demands of a datagram handed to the send callback -/
+def Packet.valid : Packet → Bool
+  | .connless _ _ d => decide (d.length ≤ P7.connlessMax)
+  | .control ack tok c => decide ((Packet.control ack tok c).wireSize ≤ maxPacketSize) && (Packet.control ack tok c).writeOk
+  | .chunks ack tok rr n cs =>
+    decide ((Packet.chunks ack tok rr n cs).wireSize ≤ maxPacketSize) && decide (n = cs.length) &&
+      decide (cs.length ≤ maxNumChunks) && cs.all (fun c => cfg.accepts c.data.length) &&
+      (decide (n ≠ 0) || rr)
 
 end Tw.Conn7
